@@ -94,7 +94,9 @@ func channelSelect(L *LState) int {
 	pos, recv, rok := reflect.Select(cases)
 
 	if L.ctx != nil && pos == L.GetTop() {
-		return 0
+		// ended by the context, not by a case: report the reason like the
+		// interpreter loop does (a silent return would look like a result)
+		L.RaiseError(L.ctx.Err().Error())
 	}
 
 	lv := LNil
@@ -154,7 +156,11 @@ func channelReceive(L *LState) int {
 			Chan: rch,
 			Send: reflect.ValueOf(nil),
 		}}
-		_, v, ok = reflect.Select(cases)
+		var pos int
+		pos, v, ok = reflect.Select(cases)
+		if pos == 0 {
+			L.RaiseError(L.ctx.Err().Error())
+		}
 	} else {
 		v, ok = rch.Recv()
 	}
@@ -182,7 +188,9 @@ func channelSend(L *LState) int {
 			Chan: rch,
 			Send: reflect.ValueOf(v),
 		}}
-		reflect.Select(cases)
+		if pos, _, _ := reflect.Select(cases); pos == 0 {
+			L.RaiseError(L.ctx.Err().Error())
+		}
 	} else {
 		rch.Send(reflect.ValueOf(v))
 	}
